@@ -184,6 +184,20 @@ def systematic_inputs(ents, rng, auto, nperms, extra_defs=()):
                 for v in d["variants"]:
                     for tn in vforms(v):
                         add(eid, coregen.vstr(tn))
+        if ty[0] == "jvalue" or (ty[0] in ("vec", "opt", "box") and ty[1][0] == "jvalue"):
+            # documents a JSON value cannot hold (non-finite floats through the second value source), several of them under different
+            # members and at different depths, in every member order
+            import itertools
+            inf, nan = coregen.vfloat(float("inf")), coregen.vfloat(float("nan"))
+            docs = [coregen.vmap([("a", inf), ("b", coregen.vint(1)), ("c", nan)]),
+                    coregen.vmap([("x", coregen.vseq([nan, coregen.vint(2)])), ("y", inf)]),
+                    coregen.vseq([inf, coregen.vmap([("k", nan), ("l", coregen.vseq([inf]))])]),
+                    coregen.vmap([("m", coregen.vmap([("p", nan), ("q", inf)])), ("n", coregen.vfloat(1.5))]),
+                    coregen.vmap([("b", coregen.vint(1)), ("a", coregen.vstr("x"))])]
+            for doc in docs:
+                val = coregen.vseq([doc, doc]) if ty[0] == "vec" else doc
+                perms = ([dict(val, e=list(pm)) for pm in itertools.permutations(val["e"])][1:] if val["t"] == "map" else [coregen.permute(val, rng)]) if nperms else []
+                out.append({"ty": eid, "val": val, "src": "ov", "grp": "start", "perm": False, "auto": auto, "perms": perms})
         if ty[0] in ("hmap", "bmap"):
             # keys that differ by surrounding white space only are different keys (and not numbers)
             g0 = coregen.KEYPOOL[ty[1]][1]
